@@ -15,11 +15,11 @@ package vsched
 
 import (
 	"bytes"
-	"strings"
 	"fmt"
 	"reflect"
 	"runtime"
 	"strconv"
+	"strings"
 	"sync"
 	"sync/atomic"
 )
